@@ -79,6 +79,53 @@ def harness(sh):
     L.append("}")
     return "\n".join(L)
 
+def native_test(sh):
+    """the same shape as a plain #[test] on concrete values (no kani): decides that the shape EXPANDS (rustc) and doubles
+    as a native cross-check of the harness template"""
+    pat, nargs, ret, trailing = sh
+    n = name_of(sh).replace("c20_", "n20_")
+    args = ["a%d" % i for i in range(nargs)]
+    caps = ["c%d: &%su32" % (i, "mut " if p == "m" else "") for i, p in enumerate(pat)]
+    mac_call = lambda a: "f!(" + ", ".join(a) + ("," if trailing else "") + ")"
+    fn_params = ", ".join(["%s: u32" % a for a in args] + ["c%d: &%su32" % (i, "mut " if p == "m" else "") for i, p in enumerate(pat)])
+    fn_call = lambda a: "refn(" + ", ".join(a + ["c%d" % i for i, p in enumerate(pat)]) + ")"
+    rt = " -> u32" if ret else ""
+    L = ["#[test]", "fn %s() {" % n, "    for a0 in 0..4u32 {", "    for seed in [1u32, 0x9e3779b9, 0xffff_fffe] {"]
+    for i, p in enumerate(pat):
+        L.append("    let %sc%d: u32 = seed.wrapping_mul(%d).rotate_left(%d);" % ("mut " if p == "m" else "", i, 2 * i + 3, i + 1))
+        L.append("    let %sr%d: u32 = c%d;" % ("mut " if p == "m" else "", i, i))
+    for i, a in enumerate(args[1:], 1):
+        L.append("    let %s: u32 = seed ^ %d;" % (a, 0x1111 * i))
+    L.append("    fn refn(%s)%s {" % (fn_params, rt))
+    L.append("            " + body(sh, fn_call))
+    L.append("    }")
+    L.append("    let res = {")
+    L.append("        let mut lam = rlib_lambda::rec_lambda!(f, |%s| {" % ", ".join(caps) if pat else "        let mut lam = rlib_lambda::rec_lambda!(f, || {")
+    L.append("            |%s|%s {" % (", ".join("%s: u32" % a for a in args), rt))
+    L.append("            " + body(sh, mac_call))
+    L.append("            }")
+    L.append("        });")
+    L.append("        lam(%s)" % ", ".join(args))
+    L.append("    };")
+    L.append("    let exp = refn(%s);" % ", ".join(args + ["&%sr%d" % ("mut " if p == "m" else "", i) for i, p in enumerate(pat)]))
+    L.append("    assert_eq!(res, exp, \"closure result equals the explicit recursion\");")
+    for i, p in enumerate(pat):
+        if p == "m":
+            L.append("    assert_eq!(c%d, r%d, \"mutable capture %d left in the same state\");" % (i, i, i))
+    L += ["    }", "    }", "}"]
+    return "\n".join(L)
+
+
+def main_native(path):
+    L = ["//! generated by vp/gen_lam.py - do not edit: every rec_lambda! shape as a plain test (expansion + native cross-check)",
+         "#![allow(unused_mut, unused_variables, unused_parens, unused_assignments)]", ""]
+    for sh in shape_list():
+        L.append(native_test(sh))
+        L.append("")
+    with open(path, "w") as f:
+        f.write("\n".join(L) + "\n")
+
+
 def main(path, quick=False):
     shapes = shape_list()
     L = ["//! generated by vp/gen_lam.py - do not edit", ""]
